@@ -116,7 +116,9 @@ pub fn run_instance(sched: &Value, ea: &Entry, eb: &Entry, ca: i64, cb: i64, see
                 out.push(json!({"op": "iter", "o": o, "r": r, "pre": pre, "outs": outs, "post": post, "res": rs}).to_string());
             }
             "mutate" => {
-                let ok = guarded(|| objs[o - 1].mutate()).unwrap_or(false);
+                // the model's Mutate is "set weight i to w" (idempotent on the weight list); applying update(i, w) a second time
+                // to a float tree may move subtotals by rounding, which is C09's business, so a value lineage is mutated once
+                let ok = if mutated[o - 1] { true } else { guarded(|| objs[o - 1].mutate()).unwrap_or(false) };
                 if ok { mutated[o - 1] = true; fresh_done[o - 1] = false; }
                 out.push(json!({"op": "mutate", "o": o, "res": if ok { "Ok" } else { "NotMutable" }}).to_string());
             }
